@@ -247,10 +247,17 @@ func first(a, _ []byte) []byte { return a }
 // is what makes the unguarded insertPosNode4 safe to use as an index.
 // cntP / cntNZ are the counting spec functions of govc/lemmas.go (number of
 // non-nil children / non-zero key bytes below an index).
-//@ spec Inv4(n) = n.childrenLen <= 4 && forall(i, 0, 3, implies(i+1 < n.childrenLen, lane(n.keys,i) < lane(n.keys,i+1))) && forall(i, 0, 3, implies(i >= n.childrenLen, lane(n.keys,i) >= lane(n.keys,i+1))) && forall(i, 0, 4, implies(i < n.childrenLen, n.children[i].pointer != nil))
-//@ spec Inv16(n) = n.childrenLen <= 16 && forall(i, 0, 15, implies(i+1 < n.childrenLen, n.keys[i] < n.keys[i+1])) && forall(i, 0, 16, implies(i < n.childrenLen, n.children[i].pointer != nil))
-//@ spec Inv48(n) = n.childrenLen <= 48 && n.childrenLen == cntP(n.children, 48) && n.childrenLen == cntNZ(n.keys, 256) && forall(x, 0, 256, n.keys[x] <= 48 && implies(n.keys[x] != 0, n.children[n.keys[x]-1].pointer != nil)) && forall(x, 0, 256, forall(y, 0, 256, implies(x != y && n.keys[x] != 0, n.keys[x] != n.keys[y])))
-//@ spec Inv256(n) = n.childrenLen == cntP(n.children, 256) % 256
+// okRef: a child reference is well typed: non-nil, owned by this tree (ghost set inT), its
+// tag names the class the object was allocated with (atype is the immutable ghost
+// allocation type; leafT() is the leaf type of the tree kind in question - node-level proofs
+// hold for every value of leafT()).
+//@ spec tyOf(k) = ite(k == 0, typeid(node4), ite(k == 1, typeid(node16), ite(k == 2, typeid(node48), ite(k == 3, typeid(node256), leafT()))))
+//@ spec okRef(r) = r.pointer != nil && inT(r.pointer) && r.tag <= 4 && atype(r.pointer) == tyOf(r.tag)
+//@ spec okChild(n, r) = okRef(r) && r.pointer != n
+//@ spec Inv4(n) = n.childrenLen <= 4 && forall(i, 0, 3, implies(i+1 < n.childrenLen, lane(n.keys,i) < lane(n.keys,i+1))) && forall(i, 0, 3, implies(i >= n.childrenLen, lane(n.keys,i) >= lane(n.keys,i+1))) && forall(i, 0, 4, implies(i < n.childrenLen, okChild(n, n.children[i])))
+//@ spec Inv16(n) = n.childrenLen <= 16 && forall(i, 0, 15, implies(i+1 < n.childrenLen, n.keys[i] < n.keys[i+1])) && forall(i, 0, 16, implies(i < n.childrenLen, okChild(n, n.children[i])))
+//@ spec Inv48(n) = n.childrenLen <= 48 && n.childrenLen == cntP(n.children, 48) && n.childrenLen == cntNZ(n.keys, 256) && forall(x, 0, 256, n.keys[x] <= 48 && implies(n.keys[x] != 0, n.children[n.keys[x]-1].pointer != nil)) && forall(x, 0, 256, forall(y, 0, 256, implies(x != y && n.keys[x] != 0, n.keys[x] != n.keys[y]))) && forall(j, 0, 48, implies(n.children[j].pointer != nil, okChild(n, n.children[j])))
+//@ spec Inv256(n) = n.childrenLen == cntP(n.children, 256) % 256 && forall(x, 0, 256, implies(n.children[x].pointer != nil, okChild(n, n.children[x])))
 //@ spec InvRef(r) = ite(r.tag == 0, Inv4(as(node4, r.pointer)), ite(r.tag == 1, Inv16(as(node16, r.pointer)), ite(r.tag == 2, Inv48(as(node48, r.pointer)), r.tag == 3 && Inv256(as(node256, r.pointer)))))
 //@ spec typeOK(r) = r.pointer != nil && atype(r.pointer) == ite(r.tag == 0, typeid(node4), ite(r.tag == 1, typeid(node16), ite(r.tag == 2, typeid(node48), typeid(node256))))
 
@@ -301,7 +308,7 @@ func first(a, _ []byte) []byte { return a }
 
 //@ func (*node256).addChild
 //@   requires n256 != nil && atype(n256) == typeid(node256) && Inv256(n256)
-//@   requires n256.children[b].pointer == nil && child.pointer != nil
+//@   requires n256.children[b].pointer == nil && okChild(n256, child)
 //@   ensures[view] forallp(x, 0, 256, lookP256(n256, x) == ite(x == b, child.pointer, old(lookP256(n256, x))) && lookT256(n256, x) == ite(x == b, child.tag, old(lookT256(n256, x))))
 //@   ensures[inv] Inv256(n256)
 //@   ensures[hdr] hdrSame(n256, n256)
@@ -310,9 +317,9 @@ func first(a, _ []byte) []byte { return a }
 
 //@ func (*node48).addChild
 //@   requires n48 != nil && atype(n48) == typeid(node48) && Inv48(n48) && refIs(ref, n48, 2)
-//@   requires n48.keys[b] == 0 && child.pointer != nil
+//@   requires n48.keys[b] == 0 && okRef(child) && child.pointer != n48
 //@   ensures[view] forallp(x, 0, 256, lookP(*ref, x) == ite(x == b, child.pointer, old(lookP48(n48, x))) && lookT(*ref, x) == ite(x == b, child.tag, old(lookT48(n48, x))))
-//@   ensures[inv] typeOK(*ref) && InvRef(*ref)
+//@   ensures[inv] typeOK(*ref) && okRef(*ref) && InvRef(*ref)
 //@   ensures[hdr] hdrSame((*ref).pointer, n48)
 //@   ensures[replaced] (*ref).pointer == n48 || (fresh((*ref).pointer) && Zero48(n48))
 //@   ensures[frame] frame(n48, ref.obj, (*ref).pointer) && frameSlot(ref)
@@ -329,9 +336,9 @@ func first(a, _ []byte) []byte { return a }
 
 //@ func (*node16).addChild
 //@   requires n16 != nil && atype(n16) == typeid(node16) && Inv16(n16) && refIs(ref, n16, 1)
-//@   requires lookP16(n16, b) == nil && child.pointer != nil
+//@   requires lookP16(n16, b) == nil && okRef(child) && child.pointer != n16
 //@   ensures[view] forallp(x, 0, 256, lookP(*ref, x) == ite(x == b, child.pointer, old(lookP16(n16, x))) && lookT(*ref, x) == ite(x == b, child.tag, old(lookT16(n16, x))))
-//@   ensures[inv] typeOK(*ref) && InvRef(*ref)
+//@   ensures[inv] typeOK(*ref) && okRef(*ref) && InvRef(*ref)
 //@   ensures[hdr] hdrSame((*ref).pointer, n16)
 //@   ensures[replaced] (*ref).pointer == n16 || (fresh((*ref).pointer) && Zero16(n16))
 //@   ensures[frame] frame(n16, ref.obj, (*ref).pointer) && frameSlot(ref)
@@ -345,9 +352,9 @@ func first(a, _ []byte) []byte { return a }
 
 //@ func (*node4).addChild
 //@   requires n4 != nil && atype(n4) == typeid(node4) && Inv4(n4) && refIs(ref, n4, 0)
-//@   requires lookP4(n4, b) == nil && child.pointer != nil
+//@   requires lookP4(n4, b) == nil && okRef(child) && child.pointer != n4
 //@   ensures[view] forallp(x, 0, 256, lookP(*ref, x) == ite(x == b, child.pointer, old(lookP4(n4, x))) && lookT(*ref, x) == ite(x == b, child.tag, old(lookT4(n4, x))))
-//@   ensures[inv] typeOK(*ref) && InvRef(*ref)
+//@   ensures[inv] typeOK(*ref) && okRef(*ref) && InvRef(*ref)
 //@   ensures[hdr] hdrSame((*ref).pointer, n4)
 //@   ensures[replaced] (*ref).pointer == n4 || (fresh((*ref).pointer) && Zero4(n4))
 //@   ensures[frame] frame(n4, ref.obj, (*ref).pointer) && frameSlot(ref)
@@ -356,9 +363,9 @@ func first(a, _ []byte) []byte { return a }
 
 //@ func (*nodeRef).addChild
 //@   requires typeOK(*ptr) && InvRef(*ptr) && slotOK(ptr)
-//@   requires lookP(*ptr, b) == nil && child.pointer != nil
+//@   requires lookP(*ptr, b) == nil && okRef(child) && child.pointer != (*ptr).pointer
 //@   ensures[view] forallp(x, 0, 256, lookP(*ptr, x) == ite(x == b, child.pointer, old(lookP(*ptr, x))) && lookT(*ptr, x) == ite(x == b, child.tag, old(lookT(*ptr, x))))
-//@   ensures[inv] typeOK(*ptr) && InvRef(*ptr)
+//@   ensures[inv] typeOK(*ptr) && okRef(*ptr) && InvRef(*ptr)
 //@   ensures[hdr] hdrSame((*ptr).pointer, old((*ptr).pointer))
 //@   ensures[replaced] (*ptr).pointer == old((*ptr).pointer) || fresh((*ptr).pointer)
 //@   ensures[frame] frame(old((*ptr).pointer), ptr.obj, (*ptr).pointer) && frameSlot(ptr)
@@ -371,7 +378,7 @@ func first(a, _ []byte) []byte { return a }
 //@   requires n256 != nil && atype(n256) == typeid(node256) && Inv256(n256) && refIs(ref, n256, 3)
 //@   requires n256.children[b].pointer != nil
 //@   ensures[view] forallp(x, 0, 256, lookP(*ref, x) == ite(x == b, nil, old(lookP256(n256, x))) && lookT(*ref, x) == ite(x == b, 0, old(lookT256(n256, x))))
-//@   ensures[inv] typeOK(*ref) && InvRef(*ref)
+//@   ensures[inv] typeOK(*ref) && okRef(*ref) && InvRef(*ref)
 //@   ensures[hdr] hdrSame((*ref).pointer, n256)
 //@   ensures[replaced] (*ref).pointer == n256 || (fresh((*ref).pointer) && Zero256(n256))
 //@   ensures[frame] frame(n256, ref.obj, (*ref).pointer) && frameSlot(ref)
@@ -393,7 +400,7 @@ func first(a, _ []byte) []byte { return a }
 //@   requires n48 != nil && atype(n48) == typeid(node48) && Inv48(n48) && refIs(ref, n48, 2)
 //@   requires n48.keys[b] != 0
 //@   ensures[view] forallp(x, 0, 256, lookP(*ref, x) == ite(x == b, nil, old(lookP48(n48, x))) && lookT(*ref, x) == ite(x == b, 0, old(lookT48(n48, x))))
-//@   ensures[inv] typeOK(*ref) && InvRef(*ref)
+//@   ensures[inv] typeOK(*ref) && okRef(*ref) && InvRef(*ref)
 //@   ensures[hdr] hdrSame((*ref).pointer, n48)
 //@   ensures[replaced] (*ref).pointer == n48 || (fresh((*ref).pointer) && Zero48(n48))
 //@   ensures[frame] frame(n48, ref.obj, (*ref).pointer) && frameSlot(ref)
@@ -415,7 +422,7 @@ func first(a, _ []byte) []byte { return a }
 //@   requires n16 != nil && atype(n16) == typeid(node16) && Inv16(n16) && refIs(ref, n16, 1)
 //@   requires lookP16(n16, b) != nil
 //@   ensures[view] forallp(x, 0, 256, lookP(*ref, x) == ite(x == b, nil, old(lookP16(n16, x))) && lookT(*ref, x) == ite(x == b, 0, old(lookT16(n16, x))))
-//@   ensures[inv] typeOK(*ref) && InvRef(*ref)
+//@   ensures[inv] typeOK(*ref) && okRef(*ref) && InvRef(*ref)
 //@   ensures[hdr] hdrSame((*ref).pointer, n16)
 //@   ensures[replaced] (*ref).pointer == n16 || (fresh((*ref).pointer) && Zero16(n16))
 //@   ensures[frame] frame(n16, ref.obj, (*ref).pointer) && frameSlot(ref)
@@ -461,7 +468,7 @@ func first(a, _ []byte) []byte { return a }
 //@   let sT = survT(*ptr, b)
 //@   let n0 = (*ptr).pointer
 //@   ensures[view] implies(!merge, forallp(x, 0, 256, lookP(*ptr, x) == ite(x == b, nil, old(lookP(*ptr, x))) && lookT(*ptr, x) == ite(x == b, 0, old(lookT(*ptr, x)))))
-//@   ensures[inv] implies(!merge, typeOK(*ptr) && InvRef(*ptr))
+//@   ensures[inv] implies(!merge, typeOK(*ptr) && okRef(*ptr) && InvRef(*ptr))
 //@   ensures[hdr] implies(!merge, hdrSame((*ptr).pointer, n0))
 //@   ensures[replaced] implies(!merge, (*ptr).pointer == n0 || fresh((*ptr).pointer))
 //@   ensures[merge_link] implies(merge, (*ptr).pointer == sP && (*ptr).tag == sT)
